@@ -369,6 +369,11 @@ impl Model {
             self.touched.push((key, "C01"));
         } else {
             self.stats.retriggers += 1;
+            // the node has (been given) the penalty again: the re-submission clock starts anew
+            let t = self.trackers.get_mut(&key).unwrap();
+            if status == MStatus::Unconf {
+                t.last_submit = t.last_submit.max(at_height);
+            }
         }
         Some(true)
     }
